@@ -2,176 +2,16 @@ package main
 
 import (
 	"context"
-	"errors"
 	"fmt"
-	"runtime"
 	"sort"
 	"strings"
 	"sync"
-	"sync/atomic"
-	"time"
 
 	"github.com/indexsupply/shovel/eth"
 	"github.com/indexsupply/shovel/jrpc2"
 	"verif/harness/cachesim"
 	"verif/harness/lib"
 )
-
-// ---- real goroutines on one segment cache ----
-
-type concRet struct {
-	Key    ckey
-	OK     bool
-	ID     uint64
-	Failed bool // this call's own fetch failed
-}
-
-func genCacheConc(seed uint64) lib.Case {
-	r := lib.NewRNG(seed)
-	maxreads := r.Range(1, 5)
-	G := r.Range(2, 6)
-	per := r.Range(3, 12)
-	nkeys := r.Range(1, 7)
-	pool := append([]ckey(nil), keyPool[:nkeys]...)
-	failMod := uint64(lib.Pick(r, []int{3, 5, 1000}))
-	yield := r.Intn(3)
-	plans := make([][]ckey, G)
-	for g := range plans {
-		for i := 0; i < per; i++ {
-			plans[g] = append(plans[g], lib.Pick(r, pool))
-		}
-	}
-
-	vc := jrpc2.VerifNewCache(maxreads)
-	var (
-		nextID  uint64
-		mu      sync.Mutex
-		fetches []struct {
-			Key ckey
-			ID  uint64
-			OK  bool
-		}
-		rets = make([][]concRet, G)
-		wg   sync.WaitGroup
-	)
-	for g := 0; g < G; g++ {
-		wg.Add(1)
-		go func(g int) {
-			defer wg.Done()
-			for _, k := range plans[g] {
-				failed := false
-				getter := func(s, l uint64) ([]eth.Block, error) {
-					id := atomic.AddUint64(&nextID, 1)
-					ok := id%failMod != 0
-					switch yield {
-					case 1:
-						runtime.Gosched()
-					case 2:
-						time.Sleep(20 * time.Microsecond)
-					}
-					mu.Lock()
-					fetches = append(fetches, struct {
-						Key ckey
-						ID  uint64
-						OK  bool
-					}{ckey{s, l}, id, ok})
-					mu.Unlock()
-					if !ok {
-						failed = true
-						return mkBlocks(s, l, id), errors.New("scripted")
-					}
-					return mkBlocks(s, l, id), nil
-				}
-				bs, err := vc.Get(false, k.Start, k.Limit, getter)
-				cr := concRet{Key: k, OK: err == nil, Failed: failed}
-				if err == nil && len(bs) > 0 {
-					cr.ID = uint64(bs[0].Header.Time)
-					for j := range bs {
-						if uint64(bs[j].Header.Time) != cr.ID || bs[j].Num() != k.Start+uint64(j) {
-							cr.ID = cachesim.BadID
-						}
-					}
-				}
-				rets[g] = append(rets[g], cr)
-			}
-		}(g)
-	}
-	wg.Wait()
-	final := vc.Segments()
-
-	// oracle
-	var fails []string
-	okFetch := map[uint64]ckey{}
-	for _, f := range fetches {
-		if f.OK {
-			okFetch[f.ID] = f.Key
-		}
-	}
-	served := map[uint64]int{}
-	servedTo := map[uint64]map[int]bool{}
-	shared := false
-	for g := range rets {
-		for i, cr := range rets[g] {
-			switch {
-			case !cr.OK:
-				if !cr.Failed {
-					fails = append(fails, fmt.Sprintf("g%d op %d: error although its fetch did not fail", g, i))
-				}
-			default:
-				if cr.Failed {
-					fails = append(fails, fmt.Sprintf("g%d op %d: failed fetch served", g, i))
-				}
-				if k, ok := okFetch[cr.ID]; !ok || k != cr.Key {
-					fails = append(fails, fmt.Sprintf("g%d op %d: served id %d is not a successful fetch of %v", g, i, cr.ID, cr.Key))
-				}
-				served[cr.ID]++
-				if servedTo[cr.ID] == nil {
-					servedTo[cr.ID] = map[int]bool{}
-				}
-				servedTo[cr.ID][g] = true
-				if len(servedTo[cr.ID]) > 1 {
-					shared = true
-				}
-			}
-		}
-	}
-	ids := make([]uint64, 0, len(served))
-	for id := range served {
-		ids = append(ids, id)
-	}
-	sort.Slice(ids, func(i, j int) bool { return ids[i] < ids[j] })
-	for _, id := range ids {
-		if served[id] > maxreads+G-1 {
-			fails = append(fails, fmt.Sprintf("fetch %d served %d reads; maxreads %d, %d goroutines", id, served[id], maxreads, G))
-		}
-	}
-	if len(final) > 5 {
-		fails = append(fails, fmt.Sprintf("%d segments at the end", len(final)))
-	}
-
-	var fs, rs []string
-	for _, f := range fetches {
-		fs = append(fs, fmt.Sprintf("(%s, %d, %s)", coqKey(f.Key), f.ID, b2c(f.OK)))
-	}
-	for g := range rets {
-		for _, cr := range rets[g] {
-			rs = append(rs, fmt.Sprintf("(%s, %s)", coqKey(cr.Key), coqOptN(cr.OK, cr.ID)))
-		}
-	}
-	c := lib.Case{
-		Coq: fmt.Sprintf("CConcCache %d %d [%s] [%s]", maxreads, G, strings.Join(fs, "; "), strings.Join(rs, "; ")),
-		Desc: desc{Kind: "cache-conc", Seed: seed, Info: map[string]any{"maxreads": maxreads, "goroutines": G,
-			"plans": plans, "fail_every": failMod}},
-		Kind:       "cache-conc",
-		Nontrivial: shared,
-		OracleOK:   len(fails) == 0,
-		Size:       G * per,
-	}
-	if len(fails) > 0 {
-		c.OracleMsg = strings.Join(fails, "; ")
-	}
-	return c
-}
 
 // ---- real goroutines on one caching client ----
 
